@@ -13,14 +13,14 @@ RULE = ("deterministic virtual-clock event loop; a real BaseClient (recording se
         "process_message; timeout in {none, 2.25, 4.25, 7.25} (never tying with the grid), polling in {off, delay 1/interval 1, delay "
         "2/interval 3}, condition kind {expect, initial, check} x event kind {value, state, value+state = a check that also reads the vector's state, where one "
         "message changes both, any = no element filter and default event type, where the "
-        "non-matching events are re-definitions raising value, state and definition events}. In every seventh run the client itself writes and submits each matching value just before the device confirms it. In every fifth run each non-matching event is preceded by the whole device being deleted (delProperty without a name) and defined again. The complete grid is enumerated (quick: 6 "
+        "non-matching events are re-definitions raising value, state and definition events}. In every ninth run all messages carry the same (one-second resolution) timestamp. In every seventh run the client itself writes and submits each matching value just before the device confirms it. In every fifth run each non-matching event is preceded by the whole device being deleted (delProperty without a name) and defined again. The complete grid is enumerated (quick: 6 "
         "points, thorough: 7 points). Oracle: the wait returns the FIRST matching event object (identity, from a "
         "spy tapping trigger_event; the callback registry holds only what the waits registered) at that event's virtual instant, or raises at exactly the timeout instant - never both, never neither; getProperties "
         "polls happen exactly at delay + k*interval while waiting and never after completion; no callback stays registered. "
         "non-trivial = a run in which at least one event was injected; distinct = hash(pattern, timeout, polling, condition)")
 ASSUMPTIONS = ["exact ties between an event and the timeout instant are excluded by off-grid constants"]
 REQUIRED_EVENTS = ["runs", "waits_completed_by_event", "waits_timed_out", "waits_still_pending_without_timeout", "polls_observed",
-                   "batches_with_two_matches", "redefinitions_injected", "whole_device_deletions_during_a_wait", "values_written_by_the_client_and_then_confirmed"]
+                   "batches_with_two_matches", "redefinitions_injected", "whole_device_deletions_during_a_wait", "values_written_by_the_client_and_then_confirmed", "runs_in_which_every_message_carries_the_same_timestamp"]
 EXHAUSTIVE_NOTE = "every assignment of the five slot kinds to every grid point x timeouts x polling x conditions (quick: 6 grid points; thorough: 7)"
 
 QUICK_SHARDS = 4
@@ -38,8 +38,9 @@ HORIZON = 9.25
 class Feeder:
     """Produces set messages that raise matching / non-matching events."""
 
-    def __init__(self, cond, kind):
+    def __init__(self, cond, kind, ts=None):
         self.cond, self.kind = cond, kind
+        self.ts = ts              # the timestamp every message of this feeder carries (drivers stamp at one-second resolution)
         self.n = 0
         # what the property is defined with; for ("initial", "any") value and state equal the wait's `initial`
         self.def_value, self.def_state = ("Ok", "Ok") if (cond, kind) == ("initial", "any") else ("INIT", "Idle")
@@ -49,7 +50,7 @@ class Feeder:
     def definition(self):
         import indi.message as M
         from indi.message import def_parts
-        return M.DefTextVector(device="D", name="P", state=self.def_state, perm="rw",
+        return M.DefTextVector(device="D", name="P", timestamp=self.ts, state=self.def_state, perm="rw",
                                children=(def_parts.DefText(name="E", value=self.def_value),))
 
     def make(self, match):
@@ -65,7 +66,7 @@ class Feeder:
             if new == self.value:
                 return None
             self.value = new
-            return M.SetTextVector(device="D", name="P", state=self.state, children=(one_parts.OneText(name="E", value=new),))
+            return M.SetTextVector(device="D", name="P", timestamp=self.ts, state=self.state, children=(one_parts.OneText(name="E", value=new),))
         if self.kind == "value+state":
             # one message changes value AND state; the wait's check looks at both (the idiom `e.element.value == ON and
             # e.vector.state == OK`): only a message carrying a GOOD value together with state Ok satisfies it
@@ -76,7 +77,7 @@ class Feeder:
             else:
                 st, new = "Ok", f"BAD{self.n}"
             self.value, self.state = new, st
-            return M.SetTextVector(device="D", name="P", state=st, children=(one_parts.OneText(name="E", value=new),))
+            return M.SetTextVector(device="D", name="P", timestamp=self.ts, state=st, children=(one_parts.OneText(name="E", value=new),))
         if self.kind == "value":
             if self.cond == "expect":
                 new = "GO" if match else f"X{self.n}"
@@ -89,7 +90,7 @@ class Feeder:
             else:
                 new = f"GOOD{self.n}" if match else f"BAD{self.n}"
             self.value = new
-            return M.SetTextVector(device="D", name="P", state=self.state, children=(one_parts.OneText(name="E", value=new),))
+            return M.SetTextVector(device="D", name="P", timestamp=self.ts, state=self.state, children=(one_parts.OneText(name="E", value=new),))
         # state events
         if self.cond == "expect":
             new = "Ok" if match else ("Busy" if self.state != "Busy" else "Alert")
@@ -100,7 +101,7 @@ class Feeder:
         if new == self.state:
             return None
         self.state = new
-        return M.SetTextVector(device="D", name="P", state=new, children=())
+        return M.SetTextVector(device="D", name="P", timestamp=self.ts, state=new, children=())
 
 
 def wait_kwargs(cond, kind, timeout, polling):
@@ -206,10 +207,14 @@ def run_one(ctx, case):
     two_match_batches = [0]
     whole_device_deletions = [0]
     client_writes = [0]
+    runs_same_second = [0]
     match_times = []          # instants at which the harness injected a report that satisfies the FIRST wait's condition
 
     async def main():
-        feeders = [Feeder(c, k) for c, k in conds]
+        same_second = "2024-01-02T03:04:05" if case.get("same_second") else None
+        feeders = [Feeder(c, k, same_second) for c, k in conds]
+        if same_second:
+            runs_same_second[0] += 1
         client.process_message(feeders[0].definition())
         client.sent.clear()
         del spy[:]
@@ -300,6 +305,7 @@ def run_one(ctx, case):
     ctx.count("redefinitions_injected", redefs[0])
     ctx.count("whole_device_deletions_during_a_wait", whole_device_deletions[0])
     ctx.count("values_written_by_the_client_and_then_confirmed", client_writes[0])
+    ctx.count("runs_in_which_every_message_carries_the_same_timestamp", runs_same_second[0])
     # ---- oracle
     for rec in results:
         cond, kind = rec["cond"], rec["kind"]
@@ -409,7 +415,7 @@ def run(ctx):
                 if not ctx.thorough and (i % 2):
                     picks = picks[:1]
                 one_case(ctx, {"pattern": list(pattern), "timeout": timeout, "polling": list(polling) if polling else None,
-                               "conds": [list(p) for p in picks], "device_vanishes": i % 5 == 3, "client_writes": i % 7 == 5})
+                               "conds": [list(p) for p in picks], "device_vanishes": i % 5 == 3, "client_writes": i % 7 == 5, "same_second": i % 9 == 4})
                 if i % 1499 == 0:
                     ctx.sample({"pattern": list(pattern), "timeout": timeout, "polling": polling, "conditions": picks})
                 if ctx.enough():
